@@ -249,17 +249,18 @@ fn state_shape(doc: &Automerge, cands: &[(ObjId, ObjType)], heads: &[ChangeHash]
                 }
             }
             ObjType::Text => {
-                // one entry per addressable element: the element starts reported by the range iterator
-                let starts: Vec<usize> = doc.list_range_at(id, .., heads).map(|it| it.index).collect();
-                let mut prev: Option<usize> = None;
-                for s in starts {
-                    if prev == Some(s) {
+                // one entry per addressable element: walk the width indexes; a new element begins where the
+                // ids of the register change (zero-width elements cannot be addressed)
+                let mut prev: Option<Vec<(u64, Vec<u8>)>> = None;
+                for i in 0..measure {
+                    let vals = doc.get_all_at(id, i, heads).map_err(|e| format!("get_all_at({},{}): {}", id, i, e))?;
+                    let mut ids: Vec<(u64, Vec<u8>)> = vals.iter().map(|(_, x)| exid_key(x)).collect();
+                    ids.sort();
+                    if prev.as_ref() == Some(&ids) {
                         continue;
                     }
-                    prev = Some(s);
-                    sh.starts.push(s);
-                    let vals = doc.get_all_at(id, s, heads).map_err(|e| format!("get_all_at({},{}): {}", id, s, e))?;
-                    // (the start index is not part of the entry: widths are compared through length_at / text_at)
+                    prev = Some(ids);
+                    sh.starts.push(i);
                     sh.entries.push(register_shape(vals, &index));
                 }
                 let t = doc.text_at(id, heads).map_err(|e| format!("text_at({}): {}", id, e))?;
@@ -1189,6 +1190,10 @@ fn check_history(rng: &mut Rng, rep: &mut Report, cw: &mut CaseWriter, ui: usize
                     (Ok(Ok(a)), Ok(Ok(b))) => {
                         if let Some((oi, cat)) = a.iter().zip(b.iter()).enumerate().find_map(|(i, (x, y))| diff_category(x, y).map(|c| (i, c))) {
                             let cat = if enc == TextEncoding::GraphemeCluster && cat == "mark-coverage" { "text-width" } else { cat };
+                            if std::env::var("VERIF_ANON_DEBUG").is_ok() && cat == "registers" {
+                                eprintln!("DEBUG twice registers universe {}\n A starts {:?}\n B starts {:?}\n A entries {:?}\n B entries {:?}\n A text {:?}\n B text {:?}", ui, a[oi].starts, b[oi].starts, a[oi].entries, b[oi].entries,
+                                    anon.text_at(&k2[oi].0, &hs2), anon2.text_at(&k3[oi].0, &hs3));
+                            }
                             fail_capped(rep, &format!("anon|{}twice|state-shape|{}|{}", tag, cat, enc_name(enc)),
                                 &format!("anonymize(anonymize(doc)): object #{} differs in {}: {}", oi, cat, describe_diff(&a[oi], &b[oi], cat)), replay.clone());
                         } else if a.len() != b.len() {
